@@ -47,7 +47,7 @@ func HarnessC16WhitespaceContext() {
 					s += " "
 				}
 			}
-			s += w.Text
+			s += trimWS(w.Text) // the time lexer keeps the blank that ended its literal
 		}
 		return s
 	}
